@@ -1,7 +1,8 @@
 """C14 - live views under mutation: DomViews specification (NodeIterator, Range boundary points, getElementsByTagName
 lists over the DomTree model), binders T (state injection, DomViewsGen) and W (simulated walks, DomViewsWalk).
 
-Mutants (mutants/C14/*.diff, all DETECTED by the quick tier, see mutants/C14/RESULTS.txt):
+Mutants (mutants/C14/*.diff; bin/mutant-run output in mutants/C14/RESULTS.txt; each was run with the one generator
+configuration of the quick tier that targets its view kind, selected with VERIF_C14_GENS, plus the walks):
   range_no_remove_notify    range notification loop removed from DOMParentNode::removeChild
   iter_removenode_next      DOMNodeIteratorImpl::removeNode uses nextNode() when moving forward
   deeplist_ignores_changes  DOMDeepNodeListImpl::cacheItem ignores the document's change counter
